@@ -358,4 +358,67 @@ theorem C11_code_lammps_cutoffs (t : TabSec) :
   by_cases h : t.nr.getD 1001 < 3 <;> simp [h]
 
 
+open Atsim.Gen.Logic in
+/-- **code tie (from the [Tabulation] values to the constructor)**: `PairTabulationFactory.create_tabulation` as regenerated hands the tabulation class exactly the pair
+objects, the cutoff and the row count that `extract_cutoffs` fixed - the grid of the object that is written is the one the section (with its defaults) determines -/
+theorem C11_code_create_tabulation_pair (pairObjects : Unit → Unit → CpRec → Except FactoryErr (List PotObj))
+    (tabClass : (List PotObj × Rat × Int) → TabObj) (t : TabSec) :
+    pair_create_tabulation pairObjects tabClass ⟨t⟩ =
+      (match pairObjects () () ⟨t⟩ with
+       | .error e => .error e
+       | .ok pots => .ok (tabClass (pots, t.cutoff.getD 10, t.nr.getD 1001))) := by
+  unfold pair_create_tabulation pair_extract_potential_objects pair_extract_tabulation_args
+  rw [C11_code_pair_defaults]
+  cases pairObjects () () ⟨t⟩ <;> rfl
+
+open Atsim.Gen.Logic in
+/-- **code tie (DL_POLY factory)**: a row count the DL_POLY layout cannot hold is refused BEFORE any potential object is built; otherwise as the pair factory -/
+theorem C11_code_create_tabulation_dlpoly (pairObjects : Unit → Unit → CpRec → Except FactoryErr (List PotObj))
+    (tabClass : (List PotObj × Rat × Int) → TabObj) (t : TabSec) :
+    dlpoly_create_tabulation pairObjects tabClass ⟨t⟩ =
+      if (t.nr.getD 1001) % 4 ≠ 0 then .error FactoryErr.notMultipleOfFour
+      else if t.nr.getD 1001 ≤ 4 then .error FactoryErr.fourRowsOrFewer
+      else (match pairObjects () () ⟨t⟩ with
+       | .error e => .error e
+       | .ok pots => .ok (tabClass (pots, t.cutoff.getD 10, t.nr.getD 1001))) := by
+  unfold dlpoly_create_tabulation pair_extract_potential_objects pair_extract_tabulation_args
+  rw [C11_code_dlpoly_cutoffs]
+  by_cases h : (t.nr.getD 1001) % 4 = 0 <;> by_cases h' : t.nr.getD 1001 ≤ 4 <;> simp only [h, h', andThen, ne_eq, not_true_eq_false, not_false_eq_true, if_true, if_false]
+  cases pairObjects () () ⟨t⟩ <;> rfl
+
+open Atsim.Gen.Logic in
+/-- **code tie (LAMMPS factory)** -/
+theorem C11_code_create_tabulation_lammps (pairObjects : Unit → Unit → CpRec → Except FactoryErr (List PotObj))
+    (tabClass : (List PotObj × Rat × Int) → TabObj) (t : TabSec) :
+    lammps_create_tabulation pairObjects tabClass ⟨t⟩ =
+      if t.nr.getD 1001 < 3 then .error FactoryErr.fewerThanThreePoints
+      else (match pairObjects () () ⟨t⟩ with
+       | .error e => .error e
+       | .ok pots => .ok (tabClass (pots, t.cutoff.getD 10, t.nr.getD 1001))) := by
+  unfold lammps_create_tabulation pair_extract_potential_objects pair_extract_tabulation_args
+  rw [C11_code_lammps_cutoffs]
+  by_cases h : t.nr.getD 1001 < 3 <;> simp only [h, andThen, if_true, if_false]
+  cases pairObjects () () ⟨t⟩ <;> rfl
+
+open Atsim.Gen.Logic in
+/-- **code tie (EAM factories)**: the six constructor arguments are the pair objects, the EAM objects of the builder, and the four grid values in the order
+`cutoff, nr, cutoff_rho, nrho` - none swapped, each from its own key of the section -/
+theorem C11_code_create_tabulation_eam (pairObjects : Unit → Unit → CpRec → Except FactoryErr (List PotObj)) (mkRefData : CpRec → RefObj)
+    (eamBuilder : CpRec → Unit → Unit → RefObj → Except FactoryErr BuilderObj) (eamPotentialsOf : BuilderObj → List EamRec)
+    (tabClass : (List PotObj × List EamRec × Rat × Int × Rat × Int) → TabObj) (t : TabSec) :
+    eam_create_tabulation pairObjects mkRefData eamBuilder eamPotentialsOf tabClass ⟨t⟩ =
+      (match pairObjects () () ⟨t⟩ with
+       | .error e => .error e
+       | .ok pots => match eamBuilder ⟨t⟩ () () (mkRefData ⟨t⟩) with
+         | .error e => .error e
+         | .ok b => .ok (tabClass (pots, eamPotentialsOf b, t.cutoff.getD 10, t.nr.getD 1001, t.cutoff_rho.getD 100, t.nrho.getD 1001))) := by
+  unfold eam_create_tabulation pair_extract_potential_objects eam_extract_tabulation_args
+  rw [C11_code_eam_defaults]
+  cases pairObjects () () ⟨t⟩ with
+  | error e => rfl
+  | ok pots =>
+    simp only [andThen]
+    cases eamBuilder ⟨t⟩ () () (mkRefData ⟨t⟩) <;> rfl
+
+
 end Atsim.C11
